@@ -29,7 +29,7 @@ CONTAINERS = ["numpy", "pandas", "index", "polars", "arrow", "arrow_chunked", "p
 
 def gen_case(rng, tier):
     n = rng.randint(1, 9 if tier == "quick" else 14)
-    nkeys = rng.choice([1, 1, 1, 2, 2, 3])
+    nkeys = rng.choice([1, 1, 1, 2, 2, 3, 3, 4, 5])
     shape = rng.choice(["random", "random", "null", "null", "mono", "prefix", "prefix_null", "lead_null"])
     nlab = rng.choice([2, 3, 4])
     keycols = []
@@ -65,8 +65,11 @@ def gen_case(rng, tier):
     route = rng.choice(["plain", "plain", "chunked"]) if nkeys == 1 and n >= 4 and kinds[0] not in ("cat", "range", "bool") else "plain"
     cuts = sorted(rng.sample(range(0, n + 1), rng.randint(0, min(3, n))))
     b = [0, *cuts, n]
+    # from three keys on: the cartesian product of the label counts may exceed what one int64 code per row can hold (in
+    # production from 2**62, e.g. four keys of 70000 labels each); the threshold is lowered so that small cases take that route
+    fold = rng.choice([None, None, 1, 6, 30]) if nkeys >= 3 else None
     return dict(keycols=keycols, kinds=kinds, conts=conts, route=route, sort=rng.random() < 0.8,
-                key_chunks=[b[i + 1] - b[i] for i in range(len(b) - 1)], shape=shape)
+                key_chunks=[b[i + 1] - b[i] for i in range(len(b) - 1)], shape=shape, max_cartesian=fold)
 
 
 def build_key(col, kind, cont, chunks):
@@ -168,11 +171,12 @@ def check_partition(gb, c, viol, sig):
 
 
 def run_case(GroupBy, c):
-    sig = dict(level="api", nkeys=len(c["keycols"]), route=c["route"], shape=c["shape"], kinds="+".join(c["kinds"]), conts="+".join(c["conts"]))
+    sig = dict(level="api", nkeys=len(c["keycols"]), route=c["route"], shape=c["shape"], kinds="+".join(c["kinds"]), conts="+".join(c["conts"]),
+               folded=c.get("max_cartesian") is not None)
     viol = []
     try:
         keys = [build_key(col, kind, cont, c["key_chunks"]) for col, kind, cont in zip(c["keycols"], c["kinds"], c["conts"])]
-        with api.strategy(chunk_threshold=4 if c["route"] == "chunked" else None):
+        with api.strategy(chunk_threshold=4 if c["route"] == "chunked" else None, max_cartesian=c.get("max_cartesian")):
             gb = GroupBy(keys if len(keys) > 1 else keys[0], sort=c["sort"])
             check_partition(gb, c, viol, sig)
     except Exception as e:  # noqa: BLE001
@@ -357,6 +361,31 @@ def model_stream(res, rng, tier):
             res.model_mismatches.append(dict(case=case, impl=str(impl), model=str(model)))
 
 
+def large_cardinality_case(res, GroupBy):
+    """Four keys of 70000 labels each: the cartesian product (2.4e19) does not fit in int64.  With mixed-radix weights
+    computed in wrapping int64 arithmetic the rows (0,0,5,20000) and (0,0,6,3781) received the same code (corpus: the
+    finding this case was built around)."""
+    a = 70000
+    w2 = ((a ** 4) % 2 ** 64) // a ** 3
+    base = np.arange(a)
+    keys = [np.r_[base, [0, 0]], np.r_[base, [0, 0]], np.r_[base, [5, 6]], np.r_[base, [20000, 20000 - w2]]]
+    case = dict(level="api", what="large-cardinality", nkeys=4, labels_per_key=a, extra_rows=[[0, 0, 5, 20000], [0, 0, 6, int(20000 - w2)]])
+    res.note_case(repr(case), True)
+    res.count("shape", "large-cardinality")
+    try:
+        gb = GroupBy(keys)
+        sizes = gb.size()
+        ik = np.asarray(gb.group_ikey)
+    except Exception as e:  # noqa: BLE001
+        res.violations.append(dict(sig=dict(level="api", what="raised", shape="large-cardinality", exc=type(e).__name__), case=case, observed=repr(e)[:200], expected="a grouping",
+                                   what="GroupBy of four keys with 70000 labels each raised"))
+        return
+    if len(sizes) != a + 2 or int(sizes.max()) != 1 or ik[a] == ik[a + 1] or len(set(ik.tolist())) != a + 2:
+        res.violations.append(dict(sig=dict(level="api", what="distinct-keys-share-a-code", shape="large-cardinality"), case=case,
+                                   observed=f"{len(sizes)} groups, largest {int(sizes.max())}, codes of the two extra rows {int(ik[a])}, {int(ik[a + 1])}",
+                                   expected=f"{a + 2} groups of one row", what="rows with different key tuples received the same group code"))
+
+
 def run(res, tier="quick", seed=0, widen=False):
     from groupby_lib import GroupBy
 
@@ -369,12 +398,13 @@ def run(res, tier="quick", seed=0, widen=False):
                 "kernels against the extracted model; non-trivial = >= 2 labels or a null key; distinct = canonical case")
     function_stream(res, rng, tier)
     model_stream(res, rng, tier)
+    large_cardinality_case(res, GroupBy)
     for ci in range(n_cases):
         c = gen_case(rng, tier)
         cj = dict(c)
         codes, labels = api.logical_codes(c["keycols"])
         res.note_case(repr(cj), len(labels) >= 2 or any(k < 0 for k in codes))
-        res.count("nkeys", len(c["keycols"])); res.count("route", c["route"]); res.count("shape", c["shape"]); res.count("rows", len(codes))
+        res.count("nkeys", len(c["keycols"])); res.count("route", c["route"]); res.count("shape", c["shape"]); res.count("rows", len(codes)); res.count("folded_keys", c.get("max_cartesian"))
         for k, ct in zip(c["kinds"], c["conts"]):
             res.count("key_kind", k); res.count("container", ct)
         if ci % 499 == 0:
